@@ -5,8 +5,6 @@
     excluded kind is named here:
       - Deque / Anything / NoneField / non-String map keys / non-scalar enum literals: the mapping raises;
       - `multiplesOf = 0`;
-      - a *nested* field-wrapper class (one required field, no additional properties): its schema is
-        the bare field's but it serializes as an object (finding);
       - OneOf / AllOf / NotField (need the exactness direction), untyped Set, `uniqueItems` on
         non-scalar or positional items, AnyOf over non-scalar options: corresponded only.
   * `regF` / `inAdmitRegion`: (declaration, value)-level region: the value is deeply well-formed and
@@ -62,8 +60,8 @@ def fragF : FieldDecl → Bool
   | .tuplePos fs u => !fs.isEmpty && fragL fs && !u
   | .mapAny _ => true
   | .mapOf k v _ => isStringField k && fragF v
-  | .struct c fields defaults =>
-    !collapses c (fields.map (·.1)) && nodupS (fields.map (·.1)) && defaults.isEmpty && fragP fields
+  | .struct _ fields defaults =>
+    nodupS (fields.map (·.1)) && defaults.isEmpty && fragP fields
   | .anyOf fs =>
     if optShape fs then fragOpt fs else !fs.isEmpty && fs.all plainScalar && fragL fs
   | .oneOf _ => false
@@ -92,7 +90,7 @@ end
     `wrapper_admits_partial`) -/
 def inSchemaFragment (cls : FieldDecl) : Bool :=
   match cls with
-  | .struct c _ _ => !c.inline && fragF cls
+  | .struct c fields _ => !c.inline && !collapses c (fields.map (·.1)) && fragF cls
   | _ => false
 
 /-! ### the value region -/
@@ -218,7 +216,7 @@ def RefsFaithful (D : Defs) : FieldDecl → Prop
   | .mapOf _ v _ => RefsFaithful D v
   | .struct c fields defaults =>
     (c.inline = true ∨
-      lookup ("#/definitions/" ++ c.name) D = some (structShape c defaults (emitP true fields)))
+      lookup ("#/definitions/" ++ c.name) D = some (classObj c defaults (emitP true fields)))
     ∧ RefsFaithfulP D fields
   | .anyOf fs => RefsFaithfulL D fs
   | .oneOf fs => RefsFaithfulL D fs
@@ -281,7 +279,7 @@ def refsFaithfulB (D : Defs) : FieldDecl → Bool
   | .struct c fields defaults =>
     (c.inline ||
       (match lookup ("#/definitions/" ++ c.name) D with
-       | some s => structEq s (structShape c defaults (emitP true fields))
+       | some s => structEq s (classObj c defaults (emitP true fields))
        | none => false))
     && refsFaithfulBP D fields
   | .anyOf fs => refsFaithfulBL D fs
@@ -310,7 +308,7 @@ mutual
 /-- declarations whose emitted schema is a well-formed draft-4 document after the dialect fix.
     Excluded (each a finding or a raise): classes without any required or defaulted field
     (`required: []`), `multiplesOf = 0`, empty positional `items`, empty / duplicated enums, raising kinds; and, corresponded
-    only: classes with defaults, an inline StructureReference in the field-wrapper form. -/
+    only: classes with defaults. -/
 def wfFragF : FieldDecl → Bool
   | .number o => numOptsOk o
   | .integer o => numOptsOk o
@@ -329,8 +327,7 @@ def wfFragF : FieldDecl → Bool
   | .mapAny _ => true
   | .mapOf k v _ => isStringField k && wfFragF v
   | .struct c fields defaults =>
-    (if collapses c (fields.map (·.1)) then !c.inline
-     else !(schemaRequired c defaults).isEmpty && nodupS (schemaRequired c defaults))
+    !(schemaRequired c defaults).isEmpty && nodupS (schemaRequired c defaults)
     && defaults.isEmpty && wfFragP fields
   | .anyOf fs => if optShape fs then wfFragOpt fs else !fs.isEmpty && wfFragL fs
   | .oneOf fs => !fs.isEmpty && wfFragL fs
@@ -353,9 +350,12 @@ def wfFragP : List (String × FieldDecl) → Bool
 termination_by structural ps => ps
 end
 
+/-- the top-level class may be a field wrapper (then its schema is the schema of its only field) -/
 def inWfFragment (cls : FieldDecl) : Bool :=
   match cls with
-  | .struct c _ _ => !c.inline && wfFragF cls
+  | .struct c fields defaults =>
+    !c.inline && (if collapses c (fields.map (·.1)) then defaults.isEmpty && wfFragP fields
+                  else wfFragF cls)
   | _ => false
 
 /-! ### exact sub-fragment -/
